@@ -417,6 +417,14 @@ def run_date_days(chk, spec):
 			return
 		exp = [None if (d is None or k is None) else d + timedelta(days=k) for d, k in zip(vals, other)]
 		o = call(lambda: v + Vector(list(other)))
+	elif form == "introw":
+		# the days come as a ROW of an all-int table (a vector of kind int, though not an instance of the int vector class)
+		t = Table({f"c{j}": [0, k if k is not None else 0, 5] for j, k in enumerate(other)}) if other else None
+		if t is None or any(k is None for k in other) or len(other) != len(vals):
+			chk.skip("date-days-row-unavailable")
+			return
+		exp = [None if d is None else d + timedelta(days=k) for d, k in zip(vals, other)]
+		o = call(lambda: v + t[1])
 	elif form == "timedelta":
 		exp = [None if d is None else d + other for d in vals]
 		o = call(lambda: v + other)
@@ -645,9 +653,13 @@ def run(chk):
 		vals = common.apply_none(rng, [rng.choice(METHOD_VALUES["date"]) for _ in range(n)], rng.choice(["none", "first", "last", "low"]))
 		if all(v is None for v in vals):
 			continue
-		form = rng.choice(["int", "intvec", "timedelta", "sub-timedelta"])
+		form = rng.choice(["int", "intvec", "timedelta", "sub-timedelta", "introw"])
+		if form == "introw" and n > 3:
+			form = "intvec"
 		if form == "int":
 			other = rng.choice([0, 1, -1, 30, 365])
+		elif form == "introw":
+			other = [rng.choice([0, 1, -1, 30]) for _ in range(n)]
 		elif form == "intvec":
 			m = n if rng.random() < 0.9 else n + 1
 			other = common.apply_none(rng, [rng.choice([0, 1, -1, 30]) for _ in range(m)], rng.choice(["none", "low"]))
